@@ -127,6 +127,14 @@ def r2(ctx):
     n0 = len(fmt_fields(packs[0].fmt)[1])
     ctx.check(pack_attrs[:n0] == ["isServer", "ctime", "seq", "ack"], "C03.R2", tb, "nonce fields are (direction, ctime, seq, ack)",
               "the nonce contains the direction identifier, the time and the sequence number", witness=pack_attrs[:n0])
+    # ... and they are packed as stored: a time or a sequence number reduced on its way into the nonce (masked to fewer bits, taken
+    # modulo something) makes the nonce repeat although the header's own fields never do
+    from .common import sym_text
+    from engine.cfg import cfg_of as _cfg
+    tcfg = _cfg(tb)
+    got = [sym_text(tb, a, tcfg.node_of(packs[0].call)) for a in packs[0].args[1:n0]]
+    ctx.check(got == ["self.ctime", "self.seq", "self.ack"][:max(0, n0 - 1)], "C03.R2", tb, "time, sequence number and ack enter the nonce unreduced",
+              "the 32-bit time and the 16-bit numbers are packed as the header holds them", witness=got, line=packs[0].lineno)
     c01.r2(_Sub(ctx, "C03.R2"))     # nonce/AAD slices at the seal and the open site
     fields = fmt_fields(packs[0].fmt)[1]
     ctx.check(fields[:3] == ["4s", "L", "H"], "C03.R2", tb, "nonce field widths: 4-byte id, 32-bit time, 16-bit seq", "widths", witness=fields)
